@@ -20,6 +20,8 @@ theorem plain_stripE : ∀ e : Expr, plainE (stripE e) = true
   | .newE _ _ args => by simp [stripE, plainE, plain_stripEs args]
   | .arrow _ ps _ body => by
       simp only [stripE, plainE, plain_stripE body, all_plain_stripParam, plainRet, List.isEmpty_nil, Bool.and_self]
+  | .asyncArrow _ ps _ body => by
+      simp only [stripE, plainE, plain_stripE body, all_plain_stripParam, plainRet, List.isEmpty_nil, Bool.and_self]
   | .asT e _ => by simp [stripE, plain_stripE e]
   | .satisfies e _ => by simp [stripE, plain_stripE e]
   | .angle _ e => by simp [stripE, plain_stripE e]
@@ -123,6 +125,9 @@ theorem stripE_of_plain : ∀ e : Expr, plainE e = true → stripE e = e
       simp only [plainE, Bool.and_eq_true, List.isEmpty_iff] at h
       simp [stripE, stripEs_of_plain args h.2, h.1]
   | .arrow tps ps ret body, h => by
+      simp only [plainE, Bool.and_eq_true, List.isEmpty_iff] at h
+      simp [stripE, stripE_of_plain body h.2, map_stripParam_of_plain ps h.1.1.2, h.1.1.1, plainRet_eq ret h.1.2]
+  | .asyncArrow tps ps ret body, h => by
       simp only [plainE, Bool.and_eq_true, List.isEmpty_iff] at h
       simp [stripE, stripE_of_plain body h.2, map_stripParam_of_plain ps h.1.1.2, h.1.1.1, plainRet_eq ret h.1.2]
   | .asT _ _, h => by simp [plainE] at h
